@@ -15,7 +15,7 @@ _RULE = ("histories of 20-60 (thorough: 20-110) abstract steps over 8 actors (2 
 
 _common = dict(
     driver="service",
-    coq_targets=["Service/Check.vo", "Service/Proofs.vo", "Service/ProofsHist.vo", "Service/ProofsEscrow.vo", "Service/ProofsSched.vo", "Service/ProofsBatch.vo", "Service/ProofsLiab.vo", "Service/ProofsTally.vo", "Service/ProofsLive.vo", "Service/ProofsModule.vo", "Service/ProofsFresh.vo", "Service/ProofsCallback.vo", "Service/ProofsSchedule.vo", "Service/ProofsModuleHist.vo", "Service/ProofsOutcome.vo", "Service/ProofsCheck.vo"],
+    coq_targets=["Service/Check.vo", "Service/Proofs.vo", "Service/ProofsHist.vo", "Service/ProofsEscrow.vo", "Service/ProofsSched.vo", "Service/ProofsBatch.vo", "Service/ProofsLiab.vo", "Service/ProofsTally.vo", "Service/ProofsLive.vo", "Service/ProofsModule.vo", "Service/ProofsFresh.vo", "Service/ProofsCallback.vo", "Service/ProofsSchedule.vo", "Service/ProofsModuleHist.vo", "Service/ProofsOutcome.vo", "Service/ProofsCheck.vo", "Service/ProofsTrack.vo", "Service/ProofsBal.vo", "Service/ProofsSlash.vo", "Service/ProofsCb.vo"],
     check_module="Service.Check",
     streams=[dict(name="main", quick=80, thorough=3600), dict(name="sched", quick=20, thorough=600)],
     coq_shard=12,
